@@ -40,6 +40,7 @@ fn profile_of(s: &str) -> arena::Profile {
         "apisweep" => ApiSweep,
         "deep" => Deep,
         "deephop" => DeepHop,
+        "scale" => Scale,
         _ => {
             eprintln!("MACHINERY: unknown profile {s}");
             std::process::exit(2)
